@@ -1321,8 +1321,13 @@ def report(which, n, seed0):
         seen.add(idx[i])
         prog = [p for s, p in progs if s == idx[i]][0]
         badprogs.append(dict(seed=idx[i], line=lines[i], impl=exp[i][:2000], model=(out[i] if i < len(out) else "<missing>")[:2000], program=prog))
+    # input distribution: how many programs were LARGE / SCALED, how long the longest was, how many were compared bit for bit to the end
+    sized = which in ("tree", "cls", "collect", "steps", "resolve", "oracle")
+    dist = dict(large_programs=sum(1 for s_, _ in progs if sized and big_mode(s_)), scaled_programs=sum(1 for s_, _ in progs if sized and which != "tree" and which != "resolve" and scale_mode(s_)),
+                longest_program_lines=max([len(p) for _, p in progs] + [0]), programs_bit_exact_throughout=sum(1 for s_, _ in progs if s_ not in LAST_TAINTED),
+                leaf_points_max=max([sum(1 for l in p if l.startswith(("pt.leaf", "fn.oracle", "fn.gradient", "fn.stat", "fn.fixed"))) for _, p in progs] + [0]))
     return dict(stream=which, programs=n, seed0=seed0, lines=len(lines), bit_exact=exact, mismatching_lines=len(bad),
-                bad=badprogs[:20], n_bad_programs=len(seen), hashes=hashes, ops=dict(ops), errors=dict(errs),
+                bad=badprogs[:20], n_bad_programs=len(seen), hashes=hashes, ops=dict(ops), errors=dict(errs), distribution=dist,
                 sample=progs[0][1] if progs else [])
 
 
